@@ -2,7 +2,7 @@ CONSTANTS
   MaxListeners = 3
   Values = {1, 2}
   Ctxs = {"live", "canceled", "expired", "gated"}
-  MaxGated = 2
+  MaxGated = 1
   Variant = "spec"
 INVARIANTS TypeOK
 PROPERTIES Steps
